@@ -348,6 +348,9 @@ def lean_env(prog):
 CARRIERS = {
     "bytes": lambda s: s.encode(), "bytearray": lambda s: bytearray(s.encode()),
     "mview": lambda s: memoryview(s.encode()), "mviewW": lambda s: memoryview(bytearray(s.encode())),
+    # read-only view of a MUTABLE buffer (how a receive buffer is handed to consumers): read-only, yet unhashable.
+    # Oracle-only carrier: the model's `mview` stands for every read-only view.
+    "mviewRO": lambda s: memoryview(bytearray(s.encode())).toreadonly(),
 }
 
 
